@@ -338,6 +338,21 @@ func check(c Case) vk.Verdict {
 			resps, perr, head = r2, nil, head2
 		}
 	}
+	if perr != nil && firstBad < len(c.Reqs) {
+		// from the first not well-formed request on the server frames the remaining bytes its own way (a short body swallows
+		// the start of the next request), so which of the later responses answer a HEAD is not known: accept any assignment
+		for mask := 0; mask < 1<<min(len(c.Reqs)+1-firstBad, 7) && perr != nil; mask++ {
+			hm := func(i int) bool {
+				if i < firstBad {
+					return c.Reqs[i].Method == "HEAD"
+				}
+				return i-firstBad < 7 && mask>>(i-firstBad)&1 == 1
+			}
+			if r2, e2 := vk.ParseResponses(out, hm); e2 == nil {
+				resps, perr, head = r2, nil, hm
+			}
+		}
+	}
 	if perr != nil {
 		return vk.Failf("%s: the server's output is not a well-formed HTTP/1.1 response stream: %v\noutput: %q", ctx, perr, clip(out, 1200))
 	}
